@@ -184,6 +184,19 @@ func TestVerifReplay(t *testing.T) {
 			continue
 		}
 		res := "PASSED"
+		if cl := os.Getenv("VERIF_COVER_LABEL"); cl != "" {
+			// cover obligation: run the real code repeatedly, it must never satisfy the label
+			res = "NEVER-COVERED"
+			for a := 0; a < 400; a++ {
+				runOneVerifReplay(parts[1], fn)
+				if verifrt.Covered()[cl] {
+					res = "COVERED"
+					break
+				}
+			}
+			fmt.Printf("VERIF-REPLAY %%s %%s\\n", parts[1], res)
+			continue
+		}
 		for a := 0; a < attempts; a++ {
 			res = runOneVerifReplay(parts[1], fn)
 			if res != "PASSED" {
@@ -242,6 +255,13 @@ def native_replay(pkg, items, scratch, attempts=1, timeout=600):
     # real code must not hide the other replays
     for e, path in items:
         renv = dict(env, VERIF_REPLAYS="%s=%s" % (e, path))
+        try:
+            with open(path) as fh:
+                meta = json.load(fh)
+            if meta.get("kind") == "cover":
+                renv["VERIF_COVER_LABEL"] = meta["label"].split(":", 1)[1]
+        except (OSError, ValueError, IndexError):
+            pass
         try:
             q = subprocess.run(["sh", "-c", "ulimit -v 12000000; exec \"$0\" -test.run '^TestVerifReplay$' -test.v -test.timeout %ds" % timeout, binpath],
                                cwd=os.path.join(REPO, pkg), env=renv, stdout=subprocess.PIPE, stderr=subprocess.STDOUT, text=True, timeout=timeout + 30)
@@ -357,7 +377,8 @@ def run_property(pid, tier, seed, cfg, scratch, t0):
                 inconclusive.append("vacuity: run %s never discharged assertion %r" % (run["entry"], lab))
         for lab in run.get("cover", []):
             if summ["cover_seen"].get(lab) and not summ["covered"].get(lab) and summ["exhaustive"]:
-                all_vios.append((run, dict(label="cover:" + lab, kind="cover", detail="no explored path satisfies the cover obligation", inputs=[], prefix=[], tags=[])))
+                all_vios.append((run, dict(label="cover:" + lab, kind="cover", detail="no explored path satisfies the cover obligation",
+                                           inputs=(summ.get("cover_witness") or {}).get(lab) or [], prefix=[], tags=[])))
             elif not summ["cover_seen"].get(lab):
                 inconclusive.append("vacuity: cover obligation %r never evaluated" % lab)
         for v in summ["violations"] or []:
@@ -377,7 +398,7 @@ def run_property(pid, tier, seed, cfg, scratch, t0):
         for run, v in lst[: cfg.get("replays_per_signature", 2)]:
             path = write_replay(pid, run, v)
             reps[sig].append((run, v, path))
-            if v["kind"] != "cover" and not cfg.get("no_native_replay"):
+            if not cfg.get("no_native_replay"):
                 per_pkg.setdefault(run["pkg"], []).append((run["entry"], path))
     replay_log = ""
     for pkg, items in per_pkg.items():
@@ -390,9 +411,11 @@ def run_property(pid, tier, seed, cfg, scratch, t0):
         for run, v, path in lst:
             r = replay_results.get(path)
             ok = False
-            if v["kind"] == "cover" or cfg.get("no_native_replay"):
+            if cfg.get("no_native_replay"):
                 ok = True
                 r = "not-replayed"
+            elif v["kind"] == "cover":
+                ok = r is not None and r.startswith("NEVER-COVERED")
             elif r is None:
                 ok = False
             elif v["kind"] == "assert":
